@@ -19,6 +19,8 @@ import (
 type Step struct {
 	Op     string // send | complete | flush | idle | temperr
 	NoWait bool   // do not wait for the step's effect before the next step (pipelining / bursts)
+	// Oversize (complete): if the chosen request was flushed and the flush acknowledged, its handler's late result is larger than msize
+	Oversize bool `json:",omitempty"`
 
 	// send
 	Msg    refwire.Msg `json:",omitempty"` // the request; tag and marker are assigned at run time
@@ -596,6 +598,12 @@ func RunScript(c ScriptCase, flushProperty bool) harn.Result {
 			r := park[st.Which%len(park)]
 			if st.ResMsg == nil && st.ErrText == "" {
 				st.ErrText = "x"
+			}
+			if st.Oversize && r.flushAcked && e.msize <= 65536 {
+				// the flushed request's handler returns, late, a result that could not even be
+				// sent (an Rread with msize bytes of data): it must vanish like any other
+				st.ResMsg, st.ErrText = &refwire.Msg{Kind: refwire.Rread, Blob: harn.Blob{N: int(e.msize), K: 7}}, ""
+				e.classes["late_oversize_completion_after_flush"] = true
 			}
 			e.release(r, st)
 			if r.flushAcked {
